@@ -22,7 +22,7 @@ theorem wl1_unit_weights (a : ℝ) (pos : Bool) (x s w g : ℝ) :
   · simp only [SepPen.sd1, mul_one]
     have e : a * sgn w = sgn w * a := mul_comm _ _
     rw [e]
-  · simp only [SepPen.pen1, mul_one]
+  · cases pos <;> simp [SepPen.pen1, SepPen.positive]
   · simp only [SepPen.alphaMax1, h1, if_true, div_one]
 
 /-- unit weights: WeightedMCP = MCP -/
@@ -32,7 +32,7 @@ theorem wmcp_unit_weights (a gm : ℝ) (pos : Bool) (x s w g : ℝ) :
     (SepPen.wmcp a gm pos).pen1 1 w = (SepPen.mcp a gm pos).pen1 1 w := by
   refine ⟨rfl, ?_, ?_⟩
   · simp only [SepPen.sd1, mul_one, one_mul]
-  · simp only [SepPen.pen1, one_mul]
+  · cases pos <;> simp [SepPen.pen1, SepPen.positive]
 
 /-- `l1_ratio = 1`: elastic net = L1 -/
 theorem l1l2_ratio_one (a : ℝ) (pos : Bool) (x s w g : ℝ) :
@@ -45,7 +45,7 @@ theorem l1l2_ratio_one (a : ℝ) (pos : Bool) (x s w g : ℝ) :
   · simp only [SepPen.sd1, mul_one, one_mul, sub_self, zero_mul, add_zero]
     have e : a * sgn w = sgn w * a := mul_comm _ _
     rw [e]
-  · simp only [SepPen.pen1, one_mul, sub_self, zero_mul, zero_div, add_zero]
+  · cases pos <;> simp [SepPen.pen1, SepPen.positive]
   · simp only [SepPen.alphaMax1, div_one]
 
 /-- singleton groups: block soft-thresholding of a 1-vector is (weighted) soft-thresholding,
@@ -89,7 +89,7 @@ theorem l21_one_task (a s x : ℝ) (ha : 0 ≤ a) (hs : 0 ≤ s) :
   constructor
   · simp only [BlkPen.proxBlk, SepPen.prox1]
     exact Proofs.Red.BST0_fin1 x _ (mul_nonneg ha hs)
-  · simp only [BlkPen.penBlk, SepPen.pen1, Proofs.Red.norm2_fin1, sabs_eq]
+  · simp [BlkPen.penBlk, SepPen.pen1, SepPen.positive, Proofs.Red.norm2_fin1, sabs_eq]
 
 /-- very large MCP gamma: the MCP prox is within `|x|·s/(γ-s)` of soft-thresholding, hence converges
     to it as `γ → ∞` -/
